@@ -1,9 +1,9 @@
 CONSTANTS
   MaxStack = 3
-  Budget = 4
+  Budget = 3
   Enabled = {"Name", "Const", "Tuple", "Starred", "Attribute", "Subscript", "Expr", "Assign", "AugAssign", "AnnAssign", "Return", "Delete", "Raise", "Assert", "Global", "Import", "SimpleStmt", "TypeAlias", "Module", "Yield", "List"}
   NameSet = {"a", "b"}
-  ExtraParens = FALSE
+  ExtraParens = TRUE
   Emit = TRUE
 SPECIFICATION Spec
 INVARIANTS EmitOK
